@@ -35,6 +35,7 @@ package processor
 //@ pred exhausted(s *vaaState) = (s.ourMsg != nil && s.retryCount >= 14400) || (s.ourMsg == nil && s.retryCount >= 10)
 //@ func (p *Processor) handleCleanup(ctx context.Context)
 //@   props C14 C13 C01
+//@   ensures [progress-kept] progressKept(p)
 //@   requires Inv(p)
 //@   requires InvSig(p)
 //@   ensures [inv-shape] InvShape(p)
@@ -48,6 +49,9 @@ package processor
 //@     invariant [inv-sig] InvSig(p)
 //@     invariant [processor-fields] unchanged("Processor.*")
 //@     invariant [self] p.state == atEntry(p.state) && p.state.vaaSignatures == atEntry(p.state.vaaSignatures) && p.db == atEntry(p.db)
+//@     invariant [progress-kept] forall h in dom(p.state.vaaSignatures) :: atEntry(indom(p.state.vaaSignatures, h)) && p.state.vaaSignatures[h] == atEntry(p.state.vaaSignatures[h])
+//@       | && (atEntry(p.state.vaaSignatures[h].submitted) ==> p.state.vaaSignatures[h].submitted) && (atEntry(p.state.vaaSignatures[h].settled) ==> p.state.vaaSignatures[h].settled)
+//@       | && p.state.vaaSignatures[h].retryCount >= atEntry(p.state.vaaSignatures[h].retryCount) && p.state.vaaSignatures[h].firstObserved == atEntry(p.state.vaaSignatures[h].firstObserved)
 //@     iter-ensures [removed-only-if] !indom(p.state.vaaSignatures, hash) ==>
 //@       |    (!old(s.submitted) && old(s.ourVAA) != nil && delta > 30000000000 && stored(p.db, db.idOf(old(s.ourVAA))))
 //@       | || (old(s.submitted) && delta >= 3600000000000)
@@ -95,6 +99,15 @@ package processor
 //@   | && (p.gs != nil ==> wfGS(p.gs)) && (p.notifier != nil ==> p.gst != nil)
 //@   | && (p.gs == nil ==> (forall h in dom(p.state.vaaSignatures) :: p.state.vaaSignatures[h].ourMsg != nil))
 //@ pred Inv(p *Processor) = InvShape(p)
+// Progress of an aggregation entry is never undone: while an entry stays in the table it is the
+// same object, `submitted` and `settled` never go back to false, the retry counter never
+// decreases and the time of first observation never changes.
+//@ pred progressKept(p *Processor) = forall h in dom(p.state.vaaSignatures) :: old(indom(p.state.vaaSignatures, h)) ==>
+//@   | (p.state.vaaSignatures[h] == old(p.state.vaaSignatures[h])
+//@   |  && (old(p.state.vaaSignatures[h].submitted) ==> p.state.vaaSignatures[h].submitted)
+//@   |  && (old(p.state.vaaSignatures[h].settled) ==> p.state.vaaSignatures[h].settled)
+//@   |  && p.state.vaaSignatures[h].retryCount >= old(p.state.vaaSignatures[h].retryCount)
+//@   |  && p.state.vaaSignatures[h].firstObserved == old(p.state.vaaSignatures[h].firstObserved))
 
 // ---------------------------------------------------------------- no-panic sweep over the handlers (C13)
 
@@ -121,6 +134,7 @@ package processor
 
 //@ func (p *Processor) handleObservation(ctx context.Context, m *gossipv1.SignedObservation)
 //@   props C13 C01 C02 C03 C07
+//@   ensures [progress-kept] progressKept(p)
 //@   ensures [reject-bad-signature] !old(len(m.Hash) == 32 && len(m.Signature) == 65 && ecrec_ok(from32(m.Hash), from65(m.Signature))) ==> untouched(p)
 //@   ensures [reject-address-mismatch] old(len(m.Hash) == 32 && len(m.Signature) == 65 && ecrec_ok(from32(m.Hash), from65(m.Signature)) && vaa.pk2addr(ecrec(from32(m.Hash), from65(m.Signature))) != b2a(m.Addr)) ==> untouched(p)
 //@   ensures [reject-no-set] old(gsFor(p, m)) == nil ==> untouched(p)
@@ -151,6 +165,7 @@ package processor
 
 //@ func (p *Processor) broadcastSignature(v *vaa.VAA, signature []byte, txhash []byte)
 //@   props C13 C01 C02 C14
+//@   ensures [progress-kept] progressKept(p)
 //@   ensures [records-own-observation] indom(p.state.vaaSignatures, hexs(bytes32(vaa.digestOf(v)))) && p.state.vaaSignatures[hexs(bytes32(vaa.digestOf(v)))].ourVAA == v && p.state.vaaSignatures[hexs(bytes32(vaa.digestOf(v)))].gs == p.gs && p.state.vaaSignatures[hexs(bytes32(vaa.digestOf(v)))].ourMsg != nil
 //@   ensures [broadcasts-observation] nsent(p.sendC) == old(nsent(p.sendC)) + 1
 //@   ensures [records-originating-transaction] p.state.vaaSignatures[hexs(bytes32(vaa.digestOf(v)))].txHash == txhash && p.state.vaaSignatures[hexs(bytes32(vaa.digestOf(v)))].ourMsg == lastsent(p.sendC)
@@ -173,6 +188,7 @@ package processor
 
 //@ func (p *Processor) handleMessage(ctx context.Context, k *common.MessagePublication)
 //@   props C13 C01 C02 C04
+//@   ensures [progress-kept] progressKept(p)
 //@   ensures [governance-never-signed] old(k.EmitterAddress == p.governanceEmitterAddress && k.EmitterChain == p.governanceChainId) ==> unchanged("chan") && unchanged("vaaState.*") && unchanged("map[string]*vaaState")
 //@   ensures [dropped-without-set] old(p.gs) == nil ==> unchanged("chan") && unchanged("vaaState.*") && unchanged("map[string]*vaaState")
 //@   ensures [never-stores] storeUnchanged(p.db)
@@ -188,6 +204,7 @@ package processor
 
 //@ func (p *Processor) handleInjection(ctx context.Context, v *vaa.VAA)
 //@   props C13 C01
+//@   ensures [progress-kept] progressKept(p)
 //@   requires Inv(p) && v != nil
 //@   requires InvSig(p)
 //@   ensures [inv-shape] InvShape(p)
@@ -198,6 +215,7 @@ package processor
 
 //@ func (p *Processor) handleInboundSignedVAAWithQuorum(ctx context.Context, m *gossipv1.SignedVAAWithQuorum)
 //@   props C13 C01 C02 C07 C06
+//@   ensures [progress-kept] progressKept(p)
 //@   ensures [never-publishes] unchanged("chan") && unchanged("vaaState.*") && unchanged("map[string]*vaaState")
 //@   requires Inv(p) && m != nil
 //@   requires InvSig(p)
